@@ -125,6 +125,15 @@ CHECKS = {
              "earlier in the same Einsum's section, with collection opened and closed exactly once around the loop nest.",
         design="4/C12",
         note="Trusted base: vf/metrics_xref.py over Python's ast; the file-name rule <prefix>-<rank>-<type>.csv stated in the property."),
+    "C13": dict(
+        technique="property-based testing over histories (Hypothesis): generated sequences of Einsums x configurations x space/time splits x component-binding sets, applied step by step to real Program/Hardware/Fusion objects; validity predicate (legal ordered partition) evaluated after every step and on the emitted metrics[\"blocks\"] literal",
+        text="Generated histories of 1-6 Einsums (two hardware configurations, loop orders, space/time splits, bindings drawn from a pool of "
+             "functional components, schedules mostly repeated so that the component condition decides) are fed Einsum by Einsum to the real "
+             "Fusion object; after every step the blocks must list the Einsums so far exactly once in order, and no block may mix "
+             "configurations, temporal prefixes or reuse a functional component. Maximal fusion is not demanded. Found and fixed the "
+             "unrecorded components of a block's first Einsum (237e9e7).",
+        design="4/C13",
+        note="Trusted base: the block predicate of vf/checks/c13.py recomputed from the specification value; Hypothesis."),
 }
 
 NOT_APPLICABLE = {}
